@@ -1119,26 +1119,33 @@ def render_smoke(table, title):
 # ----------------------------------------------------------------------------
 # (c') the status COMMAND LINE on several study directories
 # ----------------------------------------------------------------------------
-QUICK_CLI, THOROUGH_CLI = 4, 44          # groups; one group = 1 multi-directory + k single-directory invocations
+QUICK_CLI, THOROUGH_CLI = 8, 48          # groups; one group = 1 multi-directory + k single-directory invocations
 LAUNCHER = os.path.join(common.VERIF, "harness", "e2e_launcher.py")
 
 
+BRACKETS = ["", "[all]", "[fast]", "[b]", "[/x]", "[red]", "[bold]x[/bold]", "\\[k]"]
+
+
 def gen_cli_group(rng, gi):
-    """2 or 3 studies with step names distinct across the studies (fixed width,
-    alphanumeric: no name is a substring of another, no rich markup)."""
+    """2 or 3 studies with step names distinct across the studies (fixed-width
+    stem: no name is a substring of another), decorated with tag-like bracket
+    groups that rich would take for markup; likewise parameter values and the
+    study directory names.  Layout x theme setting cycle so that every
+    combination comes round every eight groups."""
     k = rng.choice([2, 2, 3])
     studies = []
     for si in range(k):
         c = gen_case(rng, "plain", n=rng.choice([1, 2, 3, 5]))
         tag = "g%dq%s" % (gi % 10, "abc"[si])
         for i, nd in enumerate(c["nodes"]):
-            nd["name"] = "%s%02dz" % (tag, i)
-            nd["ws"] = os.path.join("/o/study", nd["name"])
+            nd["name"] = "%s%02dz%s" % (tag, i, rng.choice(BRACKETS))
+            nd["ws"] = os.path.join("/o/study", "%s%02dz" % (tag, i))
+            nd["params"] = [] if rng.random() < 0.4 else [["TAG", "v%s%d%s" % ("abc"[si], i, rng.choice(BRACKETS[1:]))]]
             nd.pop("pre", None)
-        c["dir"] = "std%s%dx%d" % ("ABC"[si], gi, rng.randrange(1000))
+        c["dir"] = "std%s%dx%d%s" % ("ABC"[si], gi, rng.randrange(1000), rng.choice(["", "[b]", "[all]", "[/x]"]))
         studies.append(c)
-    # every layout (None = the command's default) comes round every four groups
-    return {"layout": ["flat", "legacy", "narrow", None][gi % 4], "studies": studies}
+    return {"layout": ["flat", "legacy", "narrow", None][gi % 4], "disable_theme": (gi // 4) % 2 == 1,
+            "studies": studies}
 
 
 def _cli(argv_tail, cwd):
@@ -1171,8 +1178,10 @@ def cli_group_problems(group, root):
         g.write_status(d)
         dirs.append(c["dir"])
         names.append([nd["name"] for nd in c["nodes"]])
-    lay = ["--layout", group["layout"]] if group["layout"] else []
+    lay = (["--layout", group["layout"]] if group["layout"] else []) + \
+        (["--disable-theme"] if group.get("disable_theme") else [])
     jobs = [lay + dirs] + [lay + [d] for d in dirs]
+    values = [[v for nd in c["nodes"] for _k, v in nd["params"]] for c in group["studies"]]
     with ThreadPoolExecutor(max_workers=len(jobs)) as ex:
         outs = list(ex.map(lambda a: _cli(a, root), jobs))
     probs = []
@@ -1189,7 +1198,7 @@ def cli_group_problems(group, root):
         starts.append(idx[0] if idx else None)
     if any(x is None for x in starts) or starts != sorted(starts) or len(set(starts)) != len(starts):
         probs.append("`maestro status %s`: the studies' titles do not appear once each in the order given "
-                     "(title lines %s)" % (" ".join(jobs[0]), starts))
+                     "with the directory name verbatim (title lines %s)" % (" ".join(jobs[0]), starts))
     else:
         for i, d in enumerate(dirs):
             seg = "\n".join(lines[starts[i]:(starts[i + 1] if i + 1 < len(dirs) else len(lines))])
@@ -1201,6 +1210,11 @@ def cli_group_problems(group, root):
                     if i != j and nm in seg:
                         probs.append("`maestro status %s`: the report for %s shows step %s of study %s"
                                      % (" ".join(jobs[0]), d, nm, dirs[j]))
+            if group["layout"] == "narrow":          # the only layout with the Params column
+                for v in values[i]:
+                    if str(v) not in seg:
+                        probs.append("`maestro status %s`: the report for %s does not show the parameter value %s "
+                                     "verbatim" % (" ".join(jobs[0]), d, v))
     singles = "".join(o[1] for o in outs[1:])
     if multi != singles:
         probs.append("`maestro status %s` does not print what the single-directory invocations print one after "
@@ -1216,7 +1230,7 @@ def check_cli(ck, rng, ngroups):
         probs, n = cli_group_problems(group, os.path.join(root, "r%d" % gi))
         stat["groups"] += 1
         stat["invocations"] += n
-        lay = group["layout"] or "default(flat)"
+        lay = (group["layout"] or "default(flat)") + ("/no-theme" if group.get("disable_theme") else "")
         stat["layouts"][lay] = stat["layouts"].get(lay, 0) + 1
         ck.count("cli:%d:%s" % (gi, json.dumps(group, sort_keys=True)[:2000]), nontrivial=True, n=n)
         if probs:
@@ -1226,6 +1240,7 @@ def check_cli(ck, rng, ngroups):
                              {"cli": group, "directories": [c["dir"] for c in group["studies"]],
                               "argv": ["maestro", "status", "--disable-pager"] +
                                       (["--layout", group["layout"]] if group["layout"] else []) +
+                                      (["--disable-theme"] if group.get("disable_theme") else []) +
                                       [c["dir"] for c in group["studies"]]})
     shutil.rmtree(root, ignore_errors=True)
     ck.notes["status_cli"] = stat
